@@ -461,4 +461,6 @@ where
     }
 }
 
+#[cfg(pilota_verif)]
+mod verif_hook;
 mod test;
